@@ -108,7 +108,7 @@ fn obligation(k: usize, key: &PublicKey, msg: &[u8], sig: &[u8]) -> bool {
 
 /// shape: versions of authority / block 1 / block 2 (None = absent), external signatures, seal
 fn walk(v0: u32, b1: Option<(u32, bool)>, b2: Option<(u32, bool)>, sealed: bool, p256_keys: bool) {
-    let root = any_public(false);
+    let root = any_public(p256_keys);
     let authority = any_block(v0, false, p256_keys);
     // exact-capacity vectors: one whole-object write each (see vstd_model.rs)
     let blocks = match (b1, b2) {
@@ -214,3 +214,9 @@ shape!(c01_walk_v1_v2_refused, 1, Some((2, false)), None, false, false);
 shape!(c01_walk_v0_v1ext_v1, 0, Some((1, true)), Some((1, false)), false, false);
 shape!(c01_walk_v1_v1_v1_sealed_p256, 1, Some((1, false)), Some((1, false)), true, true);
 shape!(c01_walk_v0_v0ext_legacy, 0, Some((0, true)), None, false, false);
+shape!(c01_walk_v0_v0_v0, 0, Some((0, false)), Some((0, false)), false, false);
+shape!(c01_walk_v0_v0_v0_sealed, 0, Some((0, false)), Some((0, false)), true, false);
+shape!(c01_walk_v1_v1ext_v1ext, 1, Some((1, true)), Some((1, true)), false, false);
+shape!(c01_walk_v1_v1ext_sealed_p256, 1, Some((1, true)), None, true, true);
+shape!(c01_walk_v0_v1_v0_mixed, 0, Some((1, false)), Some((0, false)), false, false);
+shape!(c01_walk_auth_v0_p256, 0, None, None, false, true);
